@@ -1,7 +1,7 @@
-(* Property C13 (TLS over TCP) -- statements only. *)
+(* Property C13 -- statements only (TLS over TCP, then QUIC). *)
 From Coq Require Import ZArith List Bool.
 From Coq Require String.
-Require Import PyLib SuiteTypes Crypto KeySchedule Packet Reassembly Decryptor TlsSession OutputBuilder Frames Main BuilderP C13P.
+Require Import PyLib SuiteTypes Crypto KeySchedule Packet Reassembly Decryptor TlsSession OutputBuilder Frames Main BuilderP C13P QuicSession QuicBuildP.
 Import ListNotations.
 Open Scope Z_scope.
 
@@ -31,3 +31,12 @@ Proof.
   eexists. reflexivity.
 Qed.
 Print Assumptions C13_hello_verbatim.
+
+(* QUIC: per direction, the bytes exported without -a are the STREAM data of the collected frames; with -a the same frames' data
+   with the CRYPTO / version-negotiation data in between, in frame order: every piece of stream data still appears, in the same
+   order and direction.  The frames collected do not depend on the option (process_datagram does not take it). *)
+Theorem C13_quic : forall b out,
+  concat (map od_payload (dir_dgrams b (quic_build false out))) = all_data true (filter is_stream (dir_frames b out)) /\
+  concat (map od_payload (dir_dgrams b (quic_build true out))) = all_data true (dir_frames b out).
+Proof. exact meta_only_adds_quic. Qed.
+Print Assumptions C13_quic.
